@@ -468,6 +468,12 @@ func checkC20Reported(c *Ctx, fns []*ssa.Function) {
 // returnedAlong enumerates the values result #idx can have at the returns reachable from the edge prev->start,
 // resolving every phi met on the way by the predecessor actually taken (acyclic paths, bounded).
 func returnedAlong(f *ssa.Function, prev, start *ssa.BasicBlock, idx int) []ssa.Value {
+	return returnedAlongX(f, prev, start, idx, nil, nil)
+}
+
+// returnedAlongX: as returnedAlong, not continuing past an instruction for which blockedI holds nor along an edge
+// in blockedE. prev may be nil (start is the entry block).
+func returnedAlongX(f *ssa.Function, prev, start *ssa.BasicBlock, idx int, blockedI func(ssa.Instruction) bool, blockedE map[edge]bool) []ssa.Value {
 	var out []ssa.Value
 	seenOut := map[ssa.Value]bool{}
 	steps := 0
@@ -519,6 +525,13 @@ func returnedAlong(f *ssa.Function, prev, start *ssa.BasicBlock, idx int) []ssa.
 				delete(choice, ph)
 			}
 		}()
+		if blockedI != nil {
+			for _, in := range b.Instrs {
+				if blockedI(in) {
+					return
+				}
+			}
+		}
 		if len(b.Instrs) > 0 {
 			if ret, ok := b.Instrs[len(b.Instrs)-1].(*ssa.Return); ok && b.Comment != "recover" && idx < len(ret.Results) {
 				v := resolve(returnedValue0(ret, idx, from), choice)
@@ -529,13 +542,20 @@ func returnedAlong(f *ssa.Function, prev, start *ssa.BasicBlock, idx int) []ssa.
 				return
 			}
 		}
-		for _, s := range b.Succs {
+		for slot, s := range b.Succs {
+			if blockedE != nil && (blockedE[edge{b.Index, slot, 0}] || pi >= 0 && blockedE[edge{b.Index, slot, pi + 1}]) {
+				continue
+			}
+			if pi >= 0 && infeasibleThreaded(b, slot, pi+1) {
+				continue
+			}
 			walk(s, b, choice, onPath)
 		}
 	}
 	walk(start, prev, map[*ssa.Phi]ssa.Value{}, map[*ssa.BasicBlock]bool{})
 	return out
 }
+
 
 // dependsOnNoPhi: v is computed from ev without passing through a phi (a wrapped or converted form of it).
 func dependsOnNoPhi(v, ev ssa.Value) bool {
